@@ -557,6 +557,7 @@ def _run_check(module, tier, seed, workers=None, runs=None, verify_replay=True, 
         return 1 if new else 0
     rc = 0
     n_viol = 0
+    unrepro = []
     for cls, key, g in new[:getattr(module, 'MAX_REPORTS', 6)]:
         scen = g['scenario']
         history = []
@@ -568,9 +569,8 @@ def _run_check(module, tier, seed, workers=None, runs=None, verify_replay=True, 
             history = [module.make_scenario(sp, seed, i) for i, sp in chunk if i < g['index']]
             again = evaluate(module, scen, history)
             if not same_violation(again['viol'], cls, key):
-                print('HARNESS-ERROR violation cls=%s key=%s at index %d reproduces neither alone nor after its chunk history'
-                      % (cls, key, g['index']))
-                return 2
+                unrepro.append('cls=%s key=%s at index %d reproduces neither alone nor after its chunk history' % (cls, key, g['index']))
+                continue
         small, hist, evals = minimise(module, scen, cls, key, history, budget_s=getattr(module, 'SHRINK_BUDGET_S', 60.0))
         res = evaluate(module, small, hist)
         if not same_violation(res['viol'], cls, key):
@@ -578,20 +578,47 @@ def _run_check(module, tier, seed, workers=None, runs=None, verify_replay=True, 
             res = evaluate(module, small, hist)
         v = [x for x in res['viol'] if x['cls'] == cls and x['key'] == key]
         if not v:
-            print('HARNESS-ERROR violation cls=%s key=%s at index %d did not reproduce after minimisation' % (cls, key, g['index']))
-            return 2
+            unrepro.append('cls=%s key=%s at index %d did not reproduce after minimisation' % (cls, key, g['index']))
+            continue
         suffix = '-' + hashlib.sha256(('%s|%s' % (cls, key)).encode()).hexdigest()[:6]
         path = write_replay(module.ID, seed, g['index'], small, v[0], res['events'], res['digest'], suffix, hist)
+        unstable = ''
         if verify_replay:
             code, out = replay_fresh(module.ID, path)
-            if code != 1 or ('digest=%s ' % res['digest']) not in out:
-                print('HARNESS-ERROR replay of %s in a fresh interpreter did not reproduce identically (exit %d)\n%s' % (path, code, out[-2000:]))
-                return 2
+            same_class = ('REPLAY-VIOLATION property=%s cls=%s key=%s ' % (module.ID, cls, key)) in out
+            if (code != 1 or not same_class) and small is not scen:
+                # the minimised scenario does not survive a fresh interpreter (a violation that depends on memory layout
+                # can be shrunk into something that only fails in this process): fall back to the scenario as found
+                res2 = evaluate(module, scen, history)
+                v2 = [x for x in res2['viol'] if x['cls'] == cls and x['key'] == key]
+                if v2:
+                    path = write_replay(module.ID, seed, g['index'], scen, v2[0], res2['events'], res2['digest'], suffix, history)
+                    code, out = replay_fresh(module.ID, path)
+                    same_class = ('REPLAY-VIOLATION property=%s cls=%s key=%s ' % (module.ID, cls, key)) in out
+                    res, v, evals = res2, v2, -evals
+            if code != 1 or not same_class:
+                unrepro.append('cls=%s key=%s: replay of %s in a fresh interpreter did not reproduce the violation (exit %d)' % (cls, key, path, code))
+                try:
+                    os.unlink(path)
+                except OSError:
+                    pass
+                continue
+            if ('digest=%s ' % res['digest']) not in out:
+                # same violation, different event log: the harness is deterministic on the unchanged tree (selftest/determinism.py),
+                # so the code under test itself behaves differently from process to process (e.g. something keyed by id())
+                unstable = ' [NOTE: reproduces in a fresh interpreter with the same class and key, but not event-for-event: the code under test is not repeatable across processes]'
         n_viol += g['count']
         hd = ' HISTORY-DEPENDENT (needs %d earlier scenario(s) in the same process: state leaks between calls)' % len(hist) if hist else ''
-        print('violation class=%s key=%s runs=%d shrink_evals=%d%s :: %s' % (cls, key, g['count'], evals, hd, v[0]['msg']))
+        print('violation class=%s key=%s runs=%d shrink_evals=%d%s%s :: %s' % (cls, key, g['count'], evals, hd, unstable, v[0]['msg']))
         print('VIOLATION property=%s replay=%s' % (module.ID, path))
         rc = 1
+    for u in unrepro:
+        print('NOT-REPRODUCED %s' % u)
+    if unrepro and rc == 0:
+        # something looked like a violation in the batch but could not be reproduced at all: believe nothing
+        print('HARNESS-ERROR %d violation group(s) seen in the batch could not be reproduced' % len(unrepro))
+        write_evidence(module, batch, tier, seed, 0, known_lines, {'unreproduced': unrepro})
+        return 2
     if len(new) > getattr(module, 'MAX_REPORTS', 6):
         print('(%d further violation classes not minimised)' % (len(new) - getattr(module, 'MAX_REPORTS', 6)))
 
